@@ -15,21 +15,9 @@ import GB.C17.Model
 namespace GB.C17
 open GB
 
-/-- The four entry points of `WebBridge.ServeHTTP`. -/
-inductive Entry where
-  | http | ws | grpcweb | grpcws
-  deriving Repr, DecidableEq
-
-def appGrpcWeb : Bytes := [97, 112, 112, 108, 105, 99, 97, 116, 105, 111, 110, 47, 103, 114, 112, 99, 45, 119, 101, 98]
-def strUpgrade : Bytes := [117, 112, 103, 114, 97, 100, 101]
-def strWebsocket : Bytes := [119, 101, 98, 115, 111, 99, 107, 101, 116]
-
-/-- `WebBridge.ServeHTTP`: which handler gets the request (first header values, ASCII case-insensitive). -/
-def dispatch (connection upgrade contentType : Bytes) (hasGrpcWebsockets : Bool) : Entry :=
-  if eqFold connection strUpgrade && eqFold upgrade strWebsocket then
-    (if hasGrpcWebsockets then .grpcws else .ws)
-  else if hasPrefix contentType appGrpcWeb then .grpcweb
-  else .http
+/-- The four entry points of `WebBridge.ServeHTTP` and the dispatch on the request headers are the C19 slice's
+    model (`GB.C19.Bridge`, `GB.C19.dispatch`: token lists, ASCII case-insensitive) — imported, not copied. -/
+abbrev Entry := GB.C19.Bridge
 
 inductive Res where
   | ok | panic | hang | reject
